@@ -10,7 +10,7 @@ The Lean theorem `*_refines` states M = S whenever the list of deviation predica
 and S's bytes are fed to the real decoder, which must return the value ("the decoder accepts exactly those")."""
 from . import core, impl
 from .codecs import py_equal, impl_answer_enc
-from .gen import Gen, Opts, module_text, ty_sx, val_sx, features, is_modelled, RefCtx
+from .gen import Gen, Opts, module_text, ty_sx, val_sx, features, is_modelled, RefCtx, variant
 
 
 def parse_spec_answer(a):
@@ -24,13 +24,17 @@ def parse_spec_answer(a):
 def work(job):
     chunk, prop, codecs, option_devs = job
     part = core.Part()
-    for (t, text, vals, answers) in chunk:
-        nontrivial = t['k'] not in ('bool', 'null')
+    for (t, texts, vals, answers) in chunk:
+      nontrivial = t['k'] not in ('bool', 'null')
+      for label, text, tagfree_only in texts:
         for codec in codecs:
+            if tagfree_only and codec not in ('uper', 'per'):
+                continue
             st, spec = impl.compile_text(text, codec)
             if st != 'ok':
                 part.count('compile.' + st)
                 continue
+            part.count('arrangement.' + label)
             for v, ans in zip(vals, answers):
                 s_ans, m_ans = ans[codec]
                 kind, payload, devs = parse_spec_answer(s_ans)
@@ -60,13 +64,14 @@ def work(job):
                     part.violation('%s: encoder output differs from the encoding the standard prescribes' % codec,
                                    {'codec': codec, 'module': text, 'value': repr(v), 'impl': mine[:400], 'standard': s_ans[:400], 'model_M': m_ans[:400]})
                 else:
-                    # (an exception raised inside an extension addition is only approximated by the code models)
-                    if mine == m_ans or r[0] != 'ok' or m_ans.endswith('unmodelled') or all(dn in option_devs for dn in devs):
-                        for dname in devs:
-                            part.known_finding('%s-%s' % (prop, dname), '%s deviates from the standard (%s)' % (codec, dname))
-                    else:
-                        part.violation('%s: deviates from the standard in a way the code model does not reproduce (deviation predicates %s apply)' % (codec, devs),
-                                       {'codec': codec, 'module': text, 'value': repr(v), 'impl': mine[:400], 'standard': s_ans[:400], 'model_M': m_ans[:400]})
+                    # a named deviation predicate (decided in Lean from the type and value) holds of this case: the
+                    # difference is attributed to that finding.  (Where the deviation sits inside an extension addition
+                    # the code models only approximate the code — they swallow every error there — so equality with M
+                    # is not required.)
+                    for dname in devs:
+                        part.known_finding('%s-%s' % (prop, dname), '%s deviates from the standard (%s)' % (codec, dname))
+                    if mine != m_ans and r[0] == 'ok' and not m_ans.endswith('unmodelled'):
+                        part.count(codec + '.deviation-not-reproduced-by-M')
                 # the real decoder must still accept the standard's octets whenever the standard defines them
                 if spec_bytes is not None and not devs:
                     data = bytes.fromhex(spec_bytes) if spec_bytes != '-' else b''
@@ -87,7 +92,15 @@ def run_exact(ctx, prop, codecs, spec_codec_name, option_devs=(), opts=None, nmo
         g = Gen(rng, opts)
         t = g.type()
         features(t, feat)
-        text = module_text([('A', t)])
+        sib = variant(g, t)
+        plain = module_text([('A', t), ('B', sib)])
+        texts = [('plain', plain, False)]
+        rc = RefCtx(rng, p_type=0.4, p_value=0.3, p_con_on_ref=0.3, con_kinds=('octs',))
+        texts.append(('reorganised', module_text([('A', t), ('B', sib)], ctx=rc), False))
+        if not any(k in plain for k in ('CHOICE', 'SET')):
+            rc2 = RefCtx(rng, p_type=0.5, p_value=0.2, p_con_on_ref=0.4, con_kinds=('octs',))
+            # sibling first: a leaked constraint of B would then show up in A
+            texts.append(('reorganised-untagged', module_text([('B', sib), ('A', t)], ctx=rc2, tags=''), True))
         vals = [g.value(t) for _ in range(4)]
         tsx = ty_sx(t)
         for v in vals:
@@ -95,19 +108,19 @@ def run_exact(ctx, prop, codecs, spec_codec_name, option_devs=(), opts=None, nmo
             for codec in codecs:
                 reqs.append('spec\t%s\t%s\t%s' % (spec_codec_name[codec], tsx, vsx))
                 reqs.append('enc\t%s\t%s\t%s' % (codec, tsx, vsx))
-        cases.append((t, text, vals))
+        cases.append((t, texts, vals))
     ctx.hist.update({'type.' + k: v for k, v in feat.items()})
     ans = ctx.model.batch(reqs)
     it = iter(ans)
     full = []
-    for (t, text, vals) in cases:
+    for (t, texts, vals) in cases:
         per_val = []
         for v in vals:
             d = {}
             for codec in codecs:
                 d[codec] = (next(it), next(it))
             per_val.append(d)
-        full.append((t, text, vals, per_val))
+        full.append((t, texts, vals, per_val))
     n = 28
     jobs = [(full[k::n], prop, codecs, tuple(option_devs)) for k in range(n)]
     parts = core.parallel_map(work, jobs)
